@@ -9,8 +9,10 @@ package dns
 //@   opt no-safety
 //@   requires dns != nil
 //@   ensures none: ret0 == nil ==> len(dns.Extra) == old(len(dns.Extra))
+//@   ensures noopt: ret0 == nil ==> (forall k in 0..len(dns.Extra) :: hdr(dns.Extra[k]).Rrtype != 41)
 //@   ensures one:  ret0 != nil ==> len(dns.Extra) == old(len(dns.Extra)) - 1
-//@   loop 1 invariant len(dns.Extra) == old(len(dns.Extra)) && i < len(dns.Extra)
+//@   loop 1 invariant len(dns.Extra) == old(len(dns.Extra)) && i < len(dns.Extra) && -1 <= i
+//@   loop 1 invariant forall k in i+1..len(dns.Extra) :: hdr(dns.Extra[k]).Rrtype != 41
 //@   modifies H.Msg.Extra.ref H.Msg.Extra.off H.Msg.Extra.len H.Msg.Extra.cap A.RR.tag A.RR.val
 
 // truncateLoop walks one section: it keeps a prefix, never overshoots the budget, and whenever it drops a
